@@ -28,5 +28,5 @@ cp $sd/patch.diff /verif/seeded/$p/patch.diff
 for f in $sd/*; do case "$(basename $f)" in patch.diff|demo|*.o|*.log|FOREIGN*|foreign*) ;; *) [ -f "$f" ] && [ $(stat -c %s "$f") -lt 200000 ] && cp "$f" /verif/seeded/$p/ ;; esac; done
 # 4. our check against it
 out=$(/verif/selftest/mutant.sh $sd/patch.diff $p $tier $budget 2>&1)
-echo "$out" | tail -6
+echo "$out"
 echo "SUMMARY $p ctest_rc=$ct demo_with=$with_fail/3 demo_without=$wo_fail/3 check=$(echo "$out" | grep -o 'rc=[0-9]*' | tail -1)"
